@@ -182,11 +182,28 @@ def propagate : Nat → D → Nat → TRes (GOut Unit × D)
         .ok (fats.foldl (fun acc f => andThen acc (fun _ d' => d'.lift (d'.g.switchNodes f n))) (.ok () d1.g, d1))
       | other => other
 
-/-- the `else` branch of `rootAt` (:417-420): `GlobalGraph::orientate()` (every `switchNodes` in it
-ends with `topologyHasChanged_`), then — as repaired — nothing: the rootedness flag is left to
-`isRooted()` (the unrepaired code set `isRooted_ = true`, although `orientate` leaves several
-father-less nodes in a graph that is not connected) -/
-def orient (d : D) : GOut Unit × D := d.lift d.g.orientate
+/-- did at least one `switchNodes` call of an `orientate` run succeed?  The recorded calls are replayed on the
+graph (a raising call changes nothing).  A successful call ends with `topologyHasChanged_()` even when it
+changes nothing in the tables (a loop `a -> a` switched with itself) -/
+def orientTouched (g : G) (switches : List (Nat × Nat)) : Bool :=
+  (switches.foldl (fun (acc : G × Bool) p =>
+    match acc.1.switchNodes p.1 p.2 with
+    | .ok _ g' => (g', true)
+    | .exc _ => acc) (g.makeDirected, false)).2
+
+/-- the `else` branch of `rootAt` (:417-421): `GlobalGraph::orientate()`: every `switchNodes` that succeeds in it
+ends with `topologyHasChanged_` (both flags reset); when none did — `orientate` raised at once or had
+nothing to turn — the tables and the flags are as before.  As repaired, nothing else happens: the
+rootedness flag is left to `isRooted()` (the unrepaired code set `isRooted_ = true`, although `orientate`
+leaves one father-less node per connected component) -/
+def orient (d : D) : GOut Unit × D :=
+  let r := d.g.orientRun
+  if orientTouched d.g r.switches then
+    let g' : G := { r.g with pending := [] }
+    (if r.raised then .exc g' else .ok () g', { g := g', valid := false, rooted := false })
+  else
+    let g0 : G := { d.g with pending := [] }
+    (if r.raised then .exc g0 else .ok () g0, { d with g := g0 })
 
 /-- the fuel given to `propagateDirection_` -/
 def propagateFuel (g : G) : Nat := g.nodes.length * g.nodes.length + 2
